@@ -8,6 +8,7 @@
 #include <logics/Logic.h>
 #include <smtsolvers/ResolutionProof.h>
 
+#include <algorithm>
 #include <unordered_set>
 #include <vector>
 
@@ -81,7 +82,14 @@ void UnsatCoreBuilder::mapClausesToTerms() {
         orbit(partitions, partitions, partition);
     }
 
-    allTerms = partitionManager.getPartitions(partitions);
+    // A partition of a popped assertion can be reached through clauses that do not depend on it (the units of the
+    // constants true and false are filed under the first partition): only current assertions are part of a core
+    vec<PTRef> const currentAssertions = solver.getCurrentAssertions();
+    for (PTRef term : partitionManager.getPartitions(partitions)) {
+        if (std::find(currentAssertions.begin(), currentAssertions.end(), term) != currentAssertions.end()) {
+            allTerms.push(term);
+        }
+    }
 }
 
 void UnsatCoreBuilder::partitionNamedTerms() {
